@@ -61,6 +61,10 @@ type Result struct {
 }
 
 func main() {
+	if len(os.Args) > 1 && os.Args[1] == "hookgen" {
+		hookgenMain(os.Args[2:])
+		return
+	}
 	var overlays multiFlag
 	var params multiFlag
 	repo := flag.String("repo", "/repo", "repository root")
